@@ -103,6 +103,11 @@ class TCPTransport(KNXIPTransport):
                 couldnotparseknxip.description,
                 raw.hex(),
             )
+            if len(raw) < self._announced_length(raw):
+                # the rest of the malformed frame has not arrived yet - it would be
+                # taken for the start of the next frame: wait and skip it as a whole
+                self._buffer = raw
+                return
             # skip the malformed frame if its header announces a usable length
             next_frame_part = self._skip_malformed_frame(raw)
         else:
@@ -126,12 +131,19 @@ class TCPTransport(KNXIPTransport):
             self.data_received_callback(next_frame_part)
 
     @staticmethod
-    def _skip_malformed_frame(raw: bytes) -> bytes:
-        """Return the data following a malformed frame whose header length is readable."""
+    def _announced_length(raw: bytes) -> int:
+        """Return the total length a frames header announces, 0 if it is not readable."""
         if len(raw) >= KNXIPHeader.HEADERLENGTH and raw[0] == KNXIPHeader.HEADERLENGTH:
             total_length = raw[4] * 256 + raw[5]
             if total_length >= KNXIPHeader.HEADERLENGTH:
-                return raw[total_length:]
+                return total_length
+        return 0
+
+    @staticmethod
+    def _skip_malformed_frame(raw: bytes) -> bytes:
+        """Return the data following a malformed frame whose header length is readable."""
+        if total_length := TCPTransport._announced_length(raw):
+            return raw[total_length:]
         return b""
 
     async def connect(self) -> None:
